@@ -66,7 +66,8 @@ public:
     Out &boolean(const char *k, bool v) { key(k); buf += v ? "true" : "false"; return *this; }
     Out &str(const char *k, const std::string &v) { key(k); buf += "\""; buf += v; buf += "\""; return *this; }
     Out &raw(const char *k, const std::string &json) { key(k); buf += json; return *this; }
-    void end() { buf += "}\n"; fwrite(buf.data(), 1, buf.size(), f); ++lines_; }
+    // every line is pushed to the file at once, so that an abrupt end of the process (sanitizer exit, kill) leaves whole lines
+    void end() { buf += "}\n"; fwrite(buf.data(), 1, buf.size(), f); fflush(f); ++lines_; }
     void flush() { if (f) fflush(f); }
     int fd() const { return f ? fileno(f) : -1; }
 };
